@@ -93,6 +93,15 @@ Objs == { ObjA1,
           Obj([a |-> NumL("i1"), n |-> Obj([b |-> Str("abc")])]),
           Obj([a |-> NumL("i1"), n |-> Obj([a |-> NumL("i1"), n |-> Obj([a |-> Str("abc")])])]),
           Obj([a |-> NumL("i1"), n |-> Lst(<<>>)]),
+          \* an undeclared field beside 0..5 declared ones (the object then has as many members as the type has fields,
+          \* or more), and in place of the required one
+          Obj([z |-> NumL("i1")]),
+          Obj([a |-> NumL("i1"), b |-> Str("abc"), z |-> NumL("i1")]),
+          Obj([a |-> NumL("i1"), b |-> Str("abc"), c |-> NumL("i1"), z |-> NumL("i1")]),
+          Obj([a |-> NumL("i1"), b |-> Str("abc"), c |-> NumL("i1"), l |-> Lst(<<NumL("i1")>>), z |-> NumL("i1")]),
+          Obj([a |-> NumL("i1"), b |-> Str("abc"), c |-> NumL("i1"), l |-> Lst(<<NumL("i1")>>), n |-> ObjA1, z |-> NumL("i1")]),
+          Obj([b |-> Str("abc"), c |-> NumL("i1"), l |-> Lst(<<NumL("i1")>>), n |-> ObjA1, z |-> NumL("i1")]),
+          Obj([a |-> NumL("i1"), b |-> Str("abc"), c |-> NumL("i1"), l |-> Lst(<<NumL("i1")>>), z |-> Null]),
           Obj(EmptyFn) }
 
 \* elements interesting for a base type: good ones, wrong kinds, boundary, null
